@@ -151,7 +151,7 @@ fn mode_hist(rng: &mut Rng, n_cases: u64, max_len: u64, probes: bool) {
                     if (*retry == 0) != *allowed {
                         viol.push(Viol { prop: "C03", step: i, what: format!("retry_after={retry} but allowed={allowed}") });
                     }
-                    if *allowed {
+                    if *allowed && q > 0 {
                         match st.ttl {
                             Some(ttl) => {
                                 if ttl != *reset {
@@ -165,7 +165,7 @@ fn mode_hist(rng: &mut Rng, n_cases: u64, max_len: u64, probes: bool) {
                             None => viol.push(Viol { prop: "C07", step: i, what: "admitted request wrote nothing to the store".into() }),
                         }
                     } else if st.ttl.is_some() {
-                        viol.push(Viol { prop: "C04", step: i, what: "denied request wrote to the store".into() });
+                        viol.push(Viol { prop: "C04", step: i, what: "denied or zero-quantity request wrote to the store".into() });
                     }
                 }
                 other => viol.push(Viol { prop: "C08", step: i, what: format!("valid request gave {:?}", other) }),
@@ -247,6 +247,145 @@ fn mode_hist(rng: &mut Rng, n_cases: u64, max_len: u64, probes: bool) {
             }
         }
         emit("hist", &cfg, &snap0, &steps, &viol, "");
+    }
+}
+
+
+/// C04: no-effect requests (denied, quantity 0, invalid) inserted into an arbitrary base history
+fn mode_insert(rng: &mut Rng, n_cases: u64, max_len: u64) {
+    for case in 0..n_cases {
+        let cfg = random_cfg(rng, case);
+        let nkeys = *rng.pick(&[1u64, 2, 3, 6]);
+        let mixed_limits = rng.chance(1, 3);
+        let limits: Vec<(i64, i64, i64)> = (0..nkeys).map(|_| pick_limits(rng)).collect();
+        let probe = Lim::new(&cfg);
+        let snap_probe = probe.snapshot();
+        let mut now = base_time(rng, &cfg, &snap_probe);
+        let n = rng.range(1, max_len as i64) as usize;
+        // base history
+        let mut base: Vec<Req> = Vec::new();
+        for _ in 0..n {
+            let ki = rng.below(nkeys) as usize;
+            let (b, count, period) = if mixed_limits && rng.chance(1, 2) { pick_limits(rng) } else { limits[ki] };
+            let e = emission_ns(count, period) as i128;
+            now += match rng.below(6) { 0 | 1 => 0, 2 => 1, 3 => e, 4 => rng.next() as i128 % (e * (b as i128) + 1), _ => rng.next() as i128 % (e + 1) };
+            now = now.min(YEAR2100);
+            let q = match rng.below(6) { 0 => 0, 1 | 2 => 1, 3 => b, 4 => b + 1, _ => rng.range(0, b + 1) };
+            base.push(Req { key: 30 + ki as u64, b, count, period, q, now });
+        }
+        // extended history: base + inserted no-effect requests
+        let mut ext: Vec<(Req, bool)> = Vec::new(); // (request, is_base)
+        let mut prev_t = base[0].now;
+        for (i, r) in base.iter().enumerate() {
+            let n_ins = match rng.below(4) { 0 => 0, 1 | 2 => 1, _ => 3 };
+            for _ in 0..n_ins {
+                let ki = rng.below(nkeys) as usize;
+                let (b, count, period) = if rng.chance(1, 3) { pick_limits(rng) } else { limits[ki] };
+                let t = if r.now > prev_t { prev_t + (rng.next() as i128 % (r.now - prev_t + 1)) } else { prev_t };
+                let key = 30 + ki as u64;
+                let ins = match rng.below(7) {
+                    0 | 1 => Req { key, b, count, period, q: 0, now: t },                 // zero quantity
+                    2 | 3 => Req { key, b, count, period, q: b + 1 + rng.range(0, 3), now: t }, // always denied
+                    4 => Req { key, b, count, period, q: -1 - rng.range(0, 5), now: t },  // negative quantity
+                    5 => Req { key, b: *rng.pick(&[0i64, -1, i64::MIN]), count, period, q: 1, now: t },
+                    _ => Req { key, b, count: *rng.pick(&[0i64, -7]), period: *rng.pick(&[0i64, 60, -1]), q: 1, now: t },
+                };
+                prev_t = t;
+                ext.push((ins, false));
+            }
+            let _ = i;
+            prev_t = r.now;
+            ext.push((r.clone(), true));
+        }
+        let mut la = Lim::new(&cfg);
+        let base_out: Vec<Out> = base.iter().map(|r| la.call(r)).collect();
+        let mut lb = Lim::new(&cfg);
+        let snap0 = lb.snapshot();
+        let mut steps: Vec<Step> = Vec::new();
+        let mut viol: Vec<Viol> = Vec::new();
+        let mut bi = 0usize;
+        for (r, is_base) in &ext {
+            let len_before = lb.len();
+            let writes_before = lb.writes();
+            let st = do_step(&mut lb, r);
+            let i = steps.len();
+            if *is_base {
+                if st.out != base_out[bi] {
+                    viol.push(Viol { prop: "C04", step: i, what: format!("response {:?} differs from the response {:?} in the history without the inserted no-effect requests", st.out, base_out[bi]) });
+                }
+                bi += 1;
+            } else {
+                match &st.out {
+                    Out::ErrNeg | Out::ErrInvalid => {
+                        if lb.len() != len_before || lb.writes() != writes_before {
+                            viol.push(Viol { prop: "C04", step: i, what: "rejected request created stored state / touched the store".into() });
+                        }
+                    }
+                    Out::Ok { allowed, .. } => {
+                        if *allowed && r.q != 0 { viol.push(Viol { prop: "C04", step: i, what: "harness error: inserted request was admitted".into() }); }
+                        if !*allowed && lb.writes() != writes_before { viol.push(Viol { prop: "C04", step: i, what: "denied request wrote to the store".into() }); }
+                    }
+                    other => viol.push(Viol { prop: "C08", step: i, what: format!("{:?}", other) }),
+                }
+            }
+            steps.push(st);
+            if lb.dead { break; }
+        }
+        emit("insert", &cfg, &snap0, &steps, &viol, &format!(",\"mixed_limits\":{mixed_limits}"));
+    }
+}
+
+
+/// C05: interleave per-key histories (victims with fixed limits in D) with arbitrary traffic on
+/// many other keys; each victim's responses must equal its solo run on a fresh limiter
+fn mode_interleave(rng: &mut Rng, n_cases: u64, max_len: u64, noise_keys: u64) {
+    for case in 0..n_cases {
+        let cfg = random_cfg(rng, case);
+        let nvict = *rng.pick(&[1u64, 2, 3]);
+        let limits: Vec<(i64, i64, i64)> = (0..nvict).map(|_| pick_limits(rng)).collect();
+        let mut lim = Lim::new(&cfg);
+        let snap0 = lim.snapshot();
+        let mut now = base_time(rng, &cfg, &snap0);
+        let n = rng.range(2, max_len as i64) as usize;
+        let nnoise = if rng.chance(1, 3) { noise_keys } else { *rng.pick(&[1u64, 3, 40]) };
+        // victims use key ids 0..17 (the special strings: empty, 64 KiB, one byte apart, non-ASCII)
+        let vkeys: Vec<u64> = match rng.below(3) { 0 => vec![10, 11, 0], 1 => vec![5, 6, 15], _ => vec![1, 3, 4] };
+        let mut steps: Vec<Step> = Vec::new();
+        let mut viol: Vec<Viol> = Vec::new();
+        let mut fresh_noise = 0u64;
+        for _ in 0..n {
+            now += match rng.below(6) { 0 | 1 => 0, 2 => 1, 3 => rng.range(0, 1_000_000) as i128, 4 => rng.range(0, 2_000_000_000) as i128, _ => rng.range(0, 70_000_000_000) as i128 };
+            now = now.min(YEAR2100);
+            let req = if rng.chance(1, 3) {
+                let vi = rng.below(nvict) as usize;
+                let (b, count, period) = limits[vi];
+                let q = match rng.below(5) { 0 => 0, 1 | 2 => 1, 3 => b, _ => rng.range(0, b + 1) };
+                Req { key: vkeys[vi], b, count, period, q, now }
+            } else {
+                // noise: other keys, arbitrary parameters
+                let key = if rng.chance(1, 2) { fresh_noise += 1; 1000 + fresh_noise } else { 1000 + rng.below(nnoise) };
+                let (b, count, period) = if rng.chance(1, 5) { (*rng.pick(&[0i64, -1, i64::MAX, 1 << 40]), *rng.pick(&[0i64, 1, i64::MAX]), *rng.pick(&[-1i64, 1, i64::MAX])) } else { pick_limits(rng) };
+                Req { key, b, count, period, q: *rng.pick(&[0i64, 1, 1, 2, -1, i64::MAX]), now }
+            };
+            let st = do_step(&mut lim, &req);
+            steps.push(st);
+            if lim.dead { break; }
+        }
+        // solo runs (fresh limiter, possibly another store type)
+        for vi in 0..nvict as usize {
+            let solo_cfg = if rng.chance(1, 2) { cfg.clone() } else { random_cfg(rng, case + 1 + vi as u64) };
+            let mut solo = Lim::new(&solo_cfg);
+            for (i, s) in steps.iter().enumerate() {
+                if s.req.key == vkeys[vi] {
+                    let o = solo.call(&s.req);
+                    if o != s.out {
+                        viol.push(Viol { prop: "C05", step: i, what: format!("key answered {:?} in the interleaved history but {:?} when run alone ({})", s.out, o, solo_cfg.json()) });
+                        break;
+                    }
+                }
+            }
+        }
+        emit("interleave", &cfg, &snap0, &steps, &viol, "");
     }
 }
 
@@ -346,6 +485,8 @@ fn main() {
     let mut rng = Rng::new(seed ^ 0x11a1);
     match mode.as_str() {
         "hist" => mode_hist(&mut rng, n, max_len, arg_u64("--probes", 1) == 1),
+        "insert" => mode_insert(&mut rng, n, max_len),
+        "interleave" => mode_interleave(&mut rng, n, max_len, arg_u64("--noise", 3000)),
         "lattice" => mode_lattice(&mut rng, arg_u64("--random", 2000), arg_u64("--stride", 1)),
         _ => { eprintln!("unknown mode"); std::process::exit(2); }
     }
